@@ -4,6 +4,7 @@ mod runner;
 mod led;
 mod lgen;
 mod model;
+mod proc;
 mod props;
 mod rat;
 mod tool;
